@@ -1590,3 +1590,103 @@ def complete_workflow():
 
 
 ALL += [start_workflow, complete_workflow]
+
+
+# ----------------------------------------------------------------------------- pure-ish decision functions used by C05
+def _final_status_post(ctx):
+    """C05/final-status on the real CompleteWorkflowHandler._determine_final_status."""
+    I = ctx.I
+    if ctx.exc is not None:
+        return [("no-exception", FALSE)]
+    ex = ctx.args["execution"]
+    msg = ctx.args["message"]
+    stages = I.getattr(ex, "stages")
+    j = fresh_int("sj")
+    n = I.ops.list_len(stages)
+    sarr = I._elem_array(stages.lid, "status", I.typer.sort_of(("enum", WS)))
+    top = z3.Select(I._elem_array(stages.lid, "parent_stage_id?", z3.BoolSort()), j)
+    in_rng = z3.And(j >= 0, j < n, top)
+    res = ctx.result
+    goals = []
+    isnone = I.ops.is_none(res)
+    rt = I.ops.strip_opt(res).t if not (res is SNone) else None
+    if rt is not None:
+        succeeded = z3.And(z3.Not(isnone), rt == status(I, "SUCCEEDED"))
+        goals.append(("succeeded-implies-every-top-level-stage-continuable",
+                      z3.Implies(z3.And(succeeded, in_rng), in_set(z3.Select(sarr, j), I, ("SUCCEEDED", "FAILED_CONTINUE", "SKIPPED", "REDIRECT")))))
+        goals.append(("terminal-stage-means-terminal", z3.Implies(z3.And(in_rng, z3.Select(sarr, j) == status(I, "TERMINAL"), z3.Not(isnone)),
+                                                                 rt == status(I, "TERMINAL"))))
+        goals.append(("result-is-final", z3.Implies(z3.Not(isnone), in_set(rt, I, ("SUCCEEDED", "TERMINAL", "CANCELED")))))
+    pushes_ = [e for e in ctx.st.effects if e.kind == "queue_push"]
+    if pushes_:
+        goals.append(("requeue-only-when-not-ready", isnone))
+        rc = I.getattr(msg, "retry_count")
+        rct = z3.If(I.ops.truthy(rc), I.ops.as_int(rc), 0)
+        goals.append(("requeue-increments-retry", I.ops.as_int(I.getattr(pushes_[0].data["msg"], "retry_count")) == rct + 1))
+    else:
+        goals.append(("not-ready-is-never-silent", z3.Not(isnone)))
+    return goals
+
+
+def final_status_unit():
+    from pyvc.verify import Unit
+    from .common import STATUS_NAMES
+    from .hcommon import make_handler
+
+    def selfv(ctx):
+        return make_handler(ctx.I, H + "complete_workflow:CompleteWorkflowHandler")
+
+    return Unit(prop="*", name="L3/_determine_final_status", func=H + "complete_workflow:CompleteWorkflowHandler._determine_final_status",
+                params=[("execution", ("obj", "Workflow")), ("message", ("obj", "CompleteWorkflow"))], self_type=selfv,
+                names=STATUS_NAMES, registry=workflow_registry(), replayable=False,
+                obligations=[Obl("C05/final-status", _final_status_post, when="any", scenario="d5_stopped_stage_workflow_succeeded.py"),
+                             ])
+
+
+ALL.append(final_status_unit)
+
+
+def _determine_status_post(ctx):
+    """C05/determine_status on the real StageExecution.determine_status (the contract CompleteStage relies on)."""
+    I = ctx.I
+    if ctx.exc is not None:
+        return [("no-exception", FALSE)]
+    stage = ctx.self_val
+    rt = ctx.result.t
+    tasks = I.getattr(stage, "tasks")
+    tarr = I._elem_array(tasks.lid, "status", I.typer.sort_of(("enum", WS)))
+    i = fresh_int("ti")
+    trng = z3.And(i >= 0, i < I.ops.list_len(tasks))
+    ex = I.getattr(stage, "execution")
+    stages = I.getattr(ex, "stages")
+    sarr = I._elem_array(stages.lid, "status", I.typer.sort_of(("enum", WS)))
+    j = fresh_int("sj")
+    pid = I._elem_array(stages.lid, "parent_stage_id", z3.IntSort())
+    pnull = I._elem_array(stages.lid, "parent_stage_id?", z3.BoolSort())
+    onull = I._elem_array(stages.lid, "synthetic_stage_owner?", z3.BoolSort())
+    child = z3.And(j >= 0, j < I.ops.list_len(stages), z3.Not(z3.Select(pnull, j)), z3.Select(pid, j) == I.getattr(stage, "id").t,
+                   z3.Not(z3.Select(onull, j)))  # a before- or after-stage of this stage
+    live = lambda t: in_set(t, I, ("NOT_STARTED", "RUNNING"))  # noqa: E731
+    I.note_index(SElem(tasks.lid, (i,)))
+    I.note_index(SElem(stages.lid, (j,)))
+    return [
+        ("never-redirect", rt != status(I, "REDIRECT")),
+        ("succeeded-means-all-tasks-done", z3.Implies(z3.And(rt == status(I, "SUCCEEDED"), trng), in_set(z3.Select(tarr, i), I, ("SUCCEEDED", "SKIPPED")))),
+        ("succeeded-means-no-live-synthetic-stage", z3.Implies(z3.And(rt == status(I, "SUCCEEDED"), child), z3.Not(live(z3.Select(sarr, j))))),
+        ("continuable-result-means-no-live-task", z3.Implies(z3.And(in_set(rt, I, ("SUCCEEDED", "SKIPPED")), trng), z3.Not(live(z3.Select(tarr, i))))),
+        ("terminal-task-means-failure", z3.Implies(z3.And(trng, z3.Select(tarr, i) == status(I, "TERMINAL")), in_set(rt, I, ("TERMINAL", "STOPPED", "FAILED_CONTINUE")))),
+    ]
+
+
+def determine_status_unit():
+    from pyvc.verify import Unit
+    from .common import STATUS_NAMES
+
+    reg = run_task_registry()
+    return Unit(prop="*", name="L3/StageExecution.determine_status", func="stabilize.models.stage.stage:StageExecution.determine_status",
+                params=[], self_type=("obj", "StageExecution"), names=STATUS_NAMES, registry=reg, replayable=False,
+                obligations=[Obl("C05/determine_status", _determine_status_post, when="any"),
+                             Obl("C06/stage-never-redirect/determine_status", _determine_status_post, when="any")])
+
+
+ALL.append(determine_status_unit)
